@@ -313,7 +313,7 @@ theorem source_registered (env : Env) (st : St) (n : Str) (s : Sheet)
 /-- … an unregistered one is parsed fresh from the reader (and not registered: `getDataSheet`
 returns no state). -/
 theorem source_fresh (env : Env) (st : St) (n : Str) (rows : List Row)
-    (h : st.data.get n = none) (hr : env.get n = some rows) :
+    (h : st.data.get n = none) (hr : env n = some rows) :
     getDataSheet env st n = .ok (Dict.ofList rows) := by
   simp [getDataSheet, getNew, h, hr, pure, Except.pure]
 
